@@ -6,7 +6,8 @@ AllTargets == {"sds:big2d:first", "sds:big2d:last", "sds:small:first", "sds:unl:
                "sds:t_float32:mid", "sds:t_float64:last", "sds:t_float32:ulp", "sds:t_float64:ulp", "sds:t_char8:mid", "sds:huge:first", "sds:huge:mid", "sds:huge:last",
                "vdata:table1:first", "vdata:table1:last", "vdata:table2:mid",
                "gr:img:first", "gr:img:last", "gr:img3:comp0", "gr:img3:comp1", "gr:img3:comp2",
-               "sdattr:big2d:units", "gattr:title", "added:sds"}
+               "sdattr:big2d:units", "gattr:title", "added:sds",
+               "sdattr:big2d:cal:2", "sdattr:big2d:steps:4", "sdattr:big2d:cal:0hi", "gattr:levels:4", "gattr:levels:0hi", "gattr:origin:1", "gattr:origin:2hi"}
 HugeTargets == {"sds:huge:first", "sds:huge:mid", "sds:huge:last", "vdata:table1:first", "sds:big2d:first", "gr:img3:comp1"}
 AllDumps == {"sds:big2d", "sds:small", "sds:unl", "sds:chk", "sds:cmp", "gr:img", "gr:img3"}
 MixedDumps == {"sds:t_int8", "sds:t_uint8", "sds:t_int16", "sds:t_uint16", "sds:t_int32", "sds:t_uint32", "sds:t_float32", "sds:t_float64", "sds:chkcmp",
